@@ -29,6 +29,7 @@ type c04iSched struct {
 	Prior string `json:"prior"`
 	Put   bool   `json:"put"`
 	Rm    bool   `json:"rm"`
+	Fix7  bool   `json:"fix7"` // validation run against a tree with fixes/F7.diff applied
 	Steps string `json:"steps"`
 }
 
@@ -196,7 +197,7 @@ func TestVerifC04I(t *testing.T) {
 		}()
 		var executed []string
 		var trace []string
-		c.waitFor(3, 2*time.Second)
+		c.waitFor(3, 15*time.Second)
 		steps := sc.Steps
 		for k := 0; k+1 < len(steps) && c.sync; k += 2 {
 			tid := int(steps[k] - 'a')
@@ -215,11 +216,11 @@ func TestVerifC04I(t *testing.T) {
 			trace = append(trace, fmt.Sprintf("%s:%s", tn, c04iStrip(p.label)))
 			c.parked[tid] = nil
 			close(p.resume)
-			c.waitFor(mask, 2*time.Second)
+			c.waitFor(mask, 15*time.Second)
 		}
 		// the model says the run is over: nobody may be parked; both must finish
 		if c.sync {
-			deadline := time.After(2 * time.Second)
+			deadline := time.After(15 * time.Second)
 			for !(c.finished[0] && c.finished[1]) && c.sync {
 				if c.parked[0] != nil || c.parked[1] != nil {
 					c.sync = false
@@ -243,7 +244,7 @@ func TestVerifC04I(t *testing.T) {
 				c.parked[tid] = nil
 			}
 		}
-		drain := time.After(5 * time.Second)
+		drain := time.After(30 * time.Second)
 		for !(c.finished[0] && c.finished[1]) {
 			select {
 			case ev := <-c.ev:
@@ -287,7 +288,7 @@ func TestVerifC04I(t *testing.T) {
 				stray++
 			}
 		}
-		term := fmt.Sprintf("{| r_prior := %s; r_put := %s; r_rm := %s;\n   r_sched := %s;\n   r_sync := %s; r_a_ok := %s; r_b_ok := %s; r_path := %s; r_trash := %s; r_stray := %d |}",
+		term := fmt.Sprintf("{| r_prior := %s; r_put := %s; r_rm := %s; r_fix7 := "+gBool(sc.Fix7)+";\n   r_sched := %s;\n   r_sync := %s; r_a_ok := %s; r_b_ok := %s; r_path := %s; r_trash := %s; r_stray := %d |}",
 			sc.Prior, gBool(sc.Put), gBool(sc.Rm), gList(executed), gBool(c.sync), gBool(c.code[0]/100 == 2), gBool(c.code[1] == 200),
 			gpath, gList(gtrash), stray)
 		a := "TOUCH"
